@@ -53,9 +53,10 @@ struct cfg_of<N, 2> {
     static std::uint64_t tag(const type & c) { return c[0]; }
 };
 
-template <typename In, bool ScalarIn, typename Out, bool RefOut>
+// Variant only makes two probes of the same kind distinct types (source and destination of a converting construction).
+template <typename In, bool ScalarIn, typename Out, bool RefOut, int Variant = 0>
 struct probe {
-    using this_t = probe<In, ScalarIn, Out, RefOut>;
+    using this_t = probe<In, ScalarIn, Out, RefOut, Variant>;
     static constexpr bool is_initial = true;
 
     using contravariant_input_t = std::conditional_t<
@@ -91,6 +92,17 @@ struct probe {
         {
         }
 #endif
+        // converting construction from a probe of the same kind (another Variant)
+        template <
+            typename O,
+            std::enable_if_t<
+                !std::is_same_v<O, owning_data_t> && O::parent_t::is_initial &&
+                    std::is_same_v<typename O::parent_t::configuration_t, configuration_t>,
+                bool> = true>
+        explicit owning_data_t(const O & o)
+            : m_cfg(o.m_cfg)
+        {
+        }
         explicit owning_data_t(covfie::parameter_pack<configuration_t> && p)
             : m_cfg(p.x)
         {
@@ -147,6 +159,9 @@ using vd = covfie::vector::vector_d<S, N>;
 // value-returning probe with an N-vector coordinate
 template <typename S, std::size_t N, typename T, std::size_t M>
 using vprobe = probe<vd<S, N>, false, vd<T, M>, false>;
+// the same, as a distinct type
+template <typename S, std::size_t N, typename T, std::size_t M>
+using vprobe2 = probe<vd<S, N>, false, vd<T, M>, false, 1>;
 // reference-returning probe with an N-vector coordinate
 template <typename S, std::size_t N, typename T, std::size_t M>
 using rprobe = probe<vd<S, N>, false, vd<T, M>, true>;
